@@ -97,6 +97,8 @@ class Check:
     for o in self.obs:
       if o.status is None:
         o.status = 'skipped'
+      if o.kind == 'lemma':
+        continue   # lemmas only serve to discharge another obligation; their failure is handled by the check itself
       if o.expect == 'sat':
         # vacuity / mutation twin: must be satisfiable
         if o.status != 'sat' and o.core:
@@ -159,7 +161,8 @@ class Check:
     return EXIT_OK
 
   def write_evidence(self, nviol, known_hits, inconclusive):
-    goals = [o for o in self.obs if o.expect == 'unsat']
+    goals = [o for o in self.obs if o.expect == 'unsat' and o.kind != 'lemma']
+    lem = [o for o in self.obs if o.kind == 'lemma']
     twins = [o for o in self.obs if o.expect == 'sat']
     sent = [o for o in self.obs if not o.trivial and o.status not in (None, 'skipped')]
     distinct = len({hashlib.md5((o.smt2 or o.name).encode()).hexdigest() for o in sent if o.status in ('sat', 'unsat')})
@@ -190,6 +193,8 @@ class Check:
         'extended_inconclusive': sum(1 for o in ext if o.status not in ('sat', 'unsat')),
         'sat_known_findings': sorted({k for k, _ in known_hits}),
         'inconclusive_core': [o.name for o in inconclusive],
+        'lemmas': len(lem),
+        'lemmas_discharged': sum(1 for o in lem if o.status == 'unsat'),
         'twins': len(twins),
         'twins_sat': sum(1 for o in twins if o.status == 'sat'),
         'solver_time_s': round(sum(o.time for o in self.obs), 2),
